@@ -129,7 +129,9 @@ func c10Drivers() []*icCfg {
 		{Name: "D3-readers", O: q2, Pre: []icOp{S(1), S(2)}, Scripts: [][]icOp{{G(1), {Kind: "range"}}, {{Kind: "len"}, D(2)}, {C}}, Post: epi},
 		{Name: "D4-loading", O: q2, Loading: true, LoadCost: 1, Scripts: [][]icOp{{L(1)}, {L(1)}, {C}}, Post: epiL},
 		// hybrid cache: the demotion workers are store goroutines too
-		{Name: "D5-hybrid", O: hOpts{MaxSize: 1, ChanSize: 2, BufSize: 2}, Hy: &hyIcCfg{Workers: 2, Prob: 1}, Scripts: [][]icOp{{S(1), S(2)}, {G(1)}, {C}},
+		{Name: "D5-hybrid", O: hOpts{MaxSize: 1, ChanSize: 2, BufSize: 2}, Hy: &hyIcCfg{Workers: 1, Prob: 1}, Scripts: [][]icOp{{S(1), S(2)}, {C}},
+			Post: []icOp{{Kind: "est"}, G(1), S(3), {Kind: "len"}, W}},
+		{Name: "D5b-hybrid-2workers", O: hOpts{MaxSize: 1, ChanSize: 2, BufSize: 2}, Hy: &hyIcCfg{Workers: 2, Prob: 1}, Scripts: [][]icOp{{S(1), S(2)}, {G(1)}, {C}},
 			Post: []icOp{{Kind: "est"}, G(1), S(3), {Kind: "len"}, W}},
 		{Name: "D6-close-close", O: q2, Pre: []icOp{S(1)}, Scripts: [][]icOp{{C}, {C}, {S(2)}}, Post: epi},
 	}
